@@ -65,3 +65,7 @@ pub assume_specification<'a> [core::str::from_utf8] (v: &'a [u8]) -> (r: std::re
 // std::time::Duration constructors (values are only passed along to timers)
 pub assume_specification [core::time::Duration::from_secs] (secs: u64) -> (r: core::time::Duration);
 pub assume_specification [core::time::Duration::from_millis] (ms: u64) -> (r: core::time::Duration);
+
+// std::mem::take: the old value is returned (what is left behind is T::default(), not specified here)
+pub assume_specification<T: Default> [core::mem::take::<T>] (dest: &mut T) -> (r: T)
+    ensures r == *old(dest);
